@@ -448,7 +448,7 @@ struct World {
             for (auto &e : ext)
                 if (e == 0)
                     e = 1;
-            if (d.shape != SHAPE_NONE && (storage_len(d, ext) > 65536 || volume(ext) > 8192))
+            if (d.shape != SHAPE_NONE && (storage_len(d, ext) > 300000 || volume(ext) > 8192))
                 break;
             destroy_slot(A);
             ModelField m;
@@ -634,7 +634,7 @@ struct World {
                 break;
             const StackDesc &dd = g_stacks[op.stack];
             const StackDesc &sd = g_stacks[B.stack];
-            if (storage_len(dd, B.model.ext) > 65536)
+            if (storage_len(dd, B.model.ext) > 300000)
                 break;
             destroy_slot(A);
             const SlotOps &o = ops_of(op.stack);
@@ -1015,16 +1015,31 @@ struct World {
                     std::printf("\n");
                 }
             }
-            if (d.view_writable) {
-                // the view maps straight onto the lattice: the model knows the answer
+            if ((int)cr.cell.size() == d.N && d.N > 0 && !cr.defaulted) {
+                // No interpolation arithmetic between the view and the storage: the chain ends in
+                // one lattice cell and the public lookup path must show exactly what the field
+                // holds there (a copy whose views still look into its source, a stale cached
+                // view, an aliased buffer show up here and nowhere else).
                 size_t lin = 0;
                 for (int k = 0; k < d.N; ++k)
-                    lin = lin * A.model.ext[k] + (size_t)x[k];
-                for (int j = 0; j < d.M; ++j)
-                    if (bits[j] != A.model.vals[lin * d.M + j]) {
-                        violate(opi, "value-mismatch", A.stack, name, "view lookup differs from the model");
+                    lin = lin * A.model.ext[k] + (size_t)cr.cell[k];
+                Scal os = d.layers[0].out_scal;
+                for (int j = 0; j < d.M && j < od; ++j) {
+                    uint64_t want = A.model.vals[lin * d.M + j];
+                    if (os != d.storage) // a cast layer on the way out: widening is exact
+                        want = (d.storage == SC_F32 && os == SC_F64) ? f64_bits((double)bits_f32(want)) : want;
+                    bool nan_w = d.storage == SC_F32 ? std::isnan(bits_f32(A.model.vals[lin * d.M + j])) : std::isnan(bits_f64(A.model.vals[lin * d.M + j]));
+                    if (os != d.storage && (nan_w || !(d.storage == SC_F32 && os == SC_F64)))
+                        continue; // NaN payloads through a conversion, or a narrowing cast: not judged
+                    if (bits[j] != want) {
+                        std::ostringstream o2;
+                        o2 << "lookup through the view at lattice cell " << lin << " component " << j << " returned 0x" << std::hex << bits[j]
+                           << ", the field holds 0x" << want;
+                        violate(opi, "value-mismatch", A.stack, name, o2.str());
                         return;
                     }
+                }
+                cnt.inc("lookup.compared_with_model_at_lattice_point");
             }
             break;
         }
@@ -1108,6 +1123,14 @@ std::vector<size_t> gen_ext(Rng &r, const StackDesc &d, bool need2)
                 e[k] = (size_t)r.range(1, 33);
             if (need2 && e[k] < 2)
                 e[k] = 2;
+        }
+        if (d.N >= 1 && d.N <= 2 && r.chance(0.03)) {
+            // a long axis: coordinates beyond one byte; the other axis stays tiny
+            for (int k = 0; k < d.N; ++k)
+                e[k] = (size_t)r.range(need2 ? 2 : 1, 3);
+            e[r.below(d.N)] = (size_t)r.range(257, d.N == 1 ? 1200 : 300);
+            if (d.shape == SHAPE_NONE || storage_len(d, e) <= 300000)
+                return e;
         }
         if (d.N >= 2 && r.chance(0.125)) {
             e[r.below(d.N)] = need2 ? 2 : 1;
@@ -1567,21 +1590,23 @@ Plan gen_plan(const std::string &property, const std::string &profile, uint64_t 
     bool f_alloc = false, f_stream = false, f_cuda = false;
     bool lookups = false;
     bool fault_run = false;
+    if (profile == "ownership" || profile == "conversion" || profile == "roundtrip")
+        p.nice = rk.chance(0.5) ? 1 : 0; // lookups need configurations with a usable domain
     if (profile == "ownership") {
-        double ww[] = {3, 0.5, 4, 3, 2, 4, 2, 1.5, 0.7, 1.5, 1.5, 1, 0.3, 1.5, 0, 1.5};
+        double ww[] = {3, 0.5, 4, 3, 2, 4, 2, 1.5, 0.7, 1.5, 1.5, 1, 0.3, 1.5, 2.5, 1.5};
         std::copy(ww, ww + OP_NKINDS, w);
         fault_run = rk.chance(0.5);
         f_alloc = fault_run;
         f_stream = fault_run && rk.chance(0.5);
         f_cuda = fault_run;
     } else if (profile == "conversion") {
-        double ww[] = {3, 0, 2, 0.7, 0.3, 0.5, 0.2, 6, 2, 0, 0, 0, 0, 0.7, 0, 0.5};
+        double ww[] = {3, 0, 2, 0.7, 0.3, 0.5, 0.2, 6, 2, 0, 0, 0, 0, 0.7, 1.5, 0.5};
         std::copy(ww, ww + OP_NKINDS, w);
         fault_run = rk.chance(0.4);
         f_alloc = fault_run;
         f_cuda = fault_run;
     } else if (profile == "roundtrip") {
-        double ww[] = {3, 0, 2, 0.3, 0, 0.3, 0, 0.5, 0, 4, 4, 1, 3, 0.5, 0, 0.7};
+        double ww[] = {3, 0, 2, 0.3, 0, 0.3, 0, 0.5, 0, 4, 4, 1, 3, 0.5, 1.0, 0.7};
         std::copy(ww, ww + OP_NKINDS, w);
     } else if (profile == "portability") {
         double ww[] = {3, 0, 1.5, 0, 0, 0, 0, 0.3, 0, 4, 5, 0.5, 1.5, 0.5, 0, 0.3};
